@@ -416,10 +416,18 @@ func countGenerator(r *common.Run) {
 	run := func(set []ruleT) {
 		var g randz.CountGenerator
 		maxP := 0
-		for _, x := range set {
+		for ri, x := range set {
 			g.AddRule(x.period, x.endIncr, x.interval, x.incr)
 			if x.period > maxP {
 				maxP = x.period
+			}
+			if ri < len(set)-1 {
+				// history: the generator is queried between AddRule calls (every prefix of the rule
+				// list is a rule set with positive parameters too); whatever these queries leave behind
+				// must not influence the answers after the next AddRule
+				for _, d := range []int{1, maxP, maxP + 1} {
+					common.Catch(func() { g.Generate("a", d); g.Min(d); g.Max(d) })
+				}
 			}
 		}
 		for _, id := range ids {
